@@ -362,7 +362,7 @@ class Gen:
             a = self.gen_suite(ctx.child(loop_refs=ctx.loop_refs + 1, in_loop=True, under_for=True), depth - 1)
         els = self.gen_suite(ctx.child(in_else=True, under_for=True), depth - 1) if r.random() < .35 else []
         return dict(k="for", n=r.choice([0, 1, 2, 2, 3]), sized=r.random() < .7, a=a, els=els, has_else=bool(els) or r.random() < .2,
-                    im=self.cmark(ctx, rl_ok=True))
+                    im=self.cmark(ctx, rl_ok=not ctx.freeze_loop))
 
     def g_while(self, ctx, depth):
         return dict(k="while", n=self.rng.choice([0, 1, 2, 3]), id=self.nid(), cm=self.cmark(ctx),
